@@ -1405,6 +1405,47 @@ package mq
 
 // CONNECT: no layout contract (the obligations take 15-50 s each on this VC; too close to the limit to be claimed)
 
+// ---------------------------------------------------------------- list elements on the wire (C02)
+// one element of each list at the position where the encoder stands, and one iteration of the list loops = one element
+
+//@ func (UserProp).fill
+//@   let k0 = len(v[0])
+//@   let k1 = len(v[1])
+//@   ensures i + 4 + k0 + k1 <= len(data) ==> wuint16(specU16(data[i], data[i+1])) == wuint16(k0) && wuint16(specU16(data[i+2+k0], data[i+3+k0])) == wuint16(k1)   #C02
+//@   ensures i + 4 + k0 + k1 <= len(data) && disjoint(v[0], data) ==> forall k in 0..k0: data[i+2+k] == v[0][k]               #C02
+//@   ensures i + 4 + k0 + k1 <= len(data) && disjoint(v[1], data) ==> forall k in 0..k1: data[i+4+k0+k] == v[1][k]            #C02
+
+//@ func (UserProp).fillProp
+//@   let k0 = len(v[0])
+//@   let k1 = len(v[1])
+//@   ensures k0 != 0 && i + 5 + k0 + k1 <= len(data) ==> data[i] == byte(id) && wuint16(specU16(data[i+1], data[i+2])) == wuint16(k0) && wuint16(specU16(data[i+3+k0], data[i+4+k0])) == wuint16(k1)   #C02
+//@   ensures k0 != 0 && i + 5 + k0 + k1 <= len(data) && disjoint(v[0], data) ==> forall k in 0..k0: data[i+3+k] == v[0][k]    #C02
+//@   ensures k0 != 0 && i + 5 + k0 + k1 <= len(data) && disjoint(v[1], data) ==> forall k in 0..k1: data[i+5+k0+k] == v[1][k] #C02
+
+//@ func (TopicFilter).fill
+//@   let fl = len(c.filter)
+//@   ensures i + 3 + fl <= len(b) ==> wuint16(specU16(b[i], b[i+1])) == wuint16(fl) && b[i+2+fl] == byte(c.options)   #C02
+//@   ensures i + 3 + fl <= len(b) && disjoint(c.filter, b) ==> forall k in 0..fl: b[i+2+k] == c.filter[k]            #C02
+
+//@ func (*UserProperties).properties
+//@   loop 0:
+//@     latch up_hdr:: len((*p)[rangeindex][0]) != 0 && head_i + 5 + len((*p)[rangeindex][0]) + len((*p)[rangeindex][1]) <= len(b) ==> b[head_i] == 38 && wuint16(specU16(b[head_i+1], b[head_i+2])) == wuint16(len((*p)[rangeindex][0])) && wuint16(specU16(b[head_i+3+len((*p)[rangeindex][0])], b[head_i+4+len((*p)[rangeindex][0])])) == wuint16(len((*p)[rangeindex][1]))   #C02
+//@     latch up_key:: len((*p)[rangeindex][0]) != 0 && head_i + 5 + len((*p)[rangeindex][0]) + len((*p)[rangeindex][1]) <= len(b) && disjoint((*p)[rangeindex][0], b) ==> forall k in 0..len((*p)[rangeindex][0]): b[head_i+3+k] == (*p)[rangeindex][0][k]   #C02
+//@     latch up_val:: len((*p)[rangeindex][0]) != 0 && head_i + 5 + len((*p)[rangeindex][0]) + len((*p)[rangeindex][1]) <= len(b) && disjoint((*p)[rangeindex][1], b) ==> forall k in 0..len((*p)[rangeindex][1]): b[head_i+5+len((*p)[rangeindex][0])+k] == (*p)[rangeindex][1][k]   #C02
+//@     latch up_adv:: i == head_i + (len((*p)[rangeindex][0]) == 0 ? 0 : 5 + len((*p)[rangeindex][0]) + len((*p)[rangeindex][1]))   #C02
+
+//@ func (*Subscribe).payload
+//@   loop 0:
+//@     latch tf_hdr:: head_i + 3 + len(p.filters[rangeindex].filter) <= len(b) ==> wuint16(specU16(b[head_i], b[head_i+1])) == wuint16(len(p.filters[rangeindex].filter)) && b[head_i+2+len(p.filters[rangeindex].filter)] == byte(p.filters[rangeindex].options)   #C02
+//@     latch tf_val:: head_i + 3 + len(p.filters[rangeindex].filter) <= len(b) && disjoint(p.filters[rangeindex].filter, b) ==> forall k in 0..len(p.filters[rangeindex].filter): b[head_i+2+k] == p.filters[rangeindex].filter[k]   #C02
+//@     latch tf_adv:: i == head_i + 3 + len(p.filters[rangeindex].filter)   #C02
+
+//@ func (*Unsubscribe).payload
+//@   loop 0:
+//@     latch ws_hdr:: head_i + 2 + len(p.filters[rangeindex]) <= len(b) ==> wuint16(specU16(b[head_i], b[head_i+1])) == wuint16(len(p.filters[rangeindex]))   #C02
+//@     latch ws_val:: head_i + 2 + len(p.filters[rangeindex]) <= len(b) && disjoint(p.filters[rangeindex], b) ==> forall k in 0..len(p.filters[rangeindex]): b[head_i+2+k] == p.filters[rangeindex][k]   #C02
+//@     latch ws_adv:: i == head_i + 2 + len(p.filters[rangeindex])   #C02
+
 // ---------------------------------------------------------------- decoders against the specification-level reader (C03)
 // R reads a frame field by field: fixed-position fields at the offsets the MQTT field tables give, then the
 // property section entry by entry. The decoder is proved to do the same, one field / one entry at a time.
